@@ -31,7 +31,7 @@ const (
 
 type holder struct {
 	Addr common.Address
-	Kind string // eoa vesting puppet module zero precompile fresh
+	Kind string // eoa vesting puppet sequencer module zero precompile fresh
 	Name string
 	Acct *vh.Acct
 }
@@ -39,6 +39,7 @@ type holder struct {
 type world struct {
 	run     *vh.Run
 	label   string
+	wi      int
 	r       *vh.RNG
 	c       *vh.Chain
 	holders []*holder
@@ -46,14 +47,17 @@ type world struct {
 	senders []*holder // key holders that sign ERC-20 transactions
 	actors  []*holder // addresses that can be the precompile's caller (senders + puppets)
 	puppets []*holder
+	seqs    []*holder // sequencer contracts (two calls per transaction); they hold coins like puppets
 	funder  *holder
 	tok     [2]common.Address
 	meta    [2][3]any // name, symbol, decimals expected from each token
 	// approved[tok][(owner, spender)]: what the owner approved THROUGH THIS TOKEN and the spender
 	// has not yet spent through this token (history model of "the allowance that holder approved").
-	approved [2]map[akey]*big.Int
-	ops      int // ERC-20 operations executed so far
-	block    int
+	approved       [2]map[akey]*big.Int
+	approvedBy     [2]map[akey]string // provenance of the last approve per token and pair (for witnesses)
+	sharedReported bool
+	ops            int // ERC-20 operations executed so far
+	block          int
 }
 
 func coins(native *big.Int, second int64) sdk.Coins {
@@ -85,8 +89,9 @@ func modAddr(name string) common.Address {
 // accounts with locked coins in both denominations, funded puppets, module accounts, the zero address.
 func newWorld(run *vh.Run, label string, wi int) (*world, error) {
 	r := run.RNG("world", wi)
-	w := &world{run: run, label: label, r: r, byAddr: map[common.Address]*holder{}}
+	w := &world{run: run, label: label, wi: wi, r: r, byAddr: map[common.Address]*holder{}}
 	w.approved = [2]map[akey]*big.Int{{}, {}}
+	w.approvedBy = [2]map[akey]string{{}, {}}
 	gen := int64(1_700_000_000)
 	var accs []vh.GenAccount
 
@@ -128,7 +133,12 @@ func newWorld(run *vh.Run, label string, wi int) (*world, error) {
 		w.add(&holder{Addr: common.BytesToAddress(r.Bytes(20)), Kind: "fresh", Name: fmt.Sprintf("fresh%d", i)})
 	}
 
-	w.c = vh.NewChain(vh.Config{Seed: r.U64(), NumVals: 1 + wi%3, Erc20Native: true, StakingCPC: true,
+	// odd worlds keep the base fee at >= 1 gwei (min gas price floor) so that fees stay sizeable; in even worlds it decays
+	minGasPrice := "0"
+	if wi%2 == 1 {
+		minGasPrice = "1000000000"
+	}
+	w.c = vh.NewChain(vh.Config{Seed: r.U64(), NumVals: 1 + wi%3, Erc20Native: true, StakingCPC: true, MinGasPrice: minGasPrice,
 		CpcWhitelist: []string{deployer.Bech32()}, Accounts: accs})
 	c := w.c
 
@@ -158,30 +168,40 @@ func newWorld(run *vh.Run, label string, wi int) (*world, error) {
 	nonce := c.Nonce(deployer.Addr)
 	price := new(big.Int).Mul(c.BaseFee(), big.NewInt(3))
 	var txs [][]byte
-	for i := 0; i < 3; i++ {
-		bz, _ := c.EthTx(deployer, vh.LegacyTx(nonce+uint64(i), nil, nil, 1_000_000, price, vh.Deployer(puppetCode())))
+	var contracts []*holder
+	for i := 0; i < 5; i++ {
+		code, kind, name := puppetCode(), "puppet", fmt.Sprintf("puppet%d", i)
+		if i >= 3 {
+			code, kind, name = sequencerCode(), "sequencer", fmt.Sprintf("sequencer%d", i-3)
+		}
+		bz, _ := c.EthTx(deployer, vh.LegacyTx(nonce+uint64(i), nil, nil, 1_000_000, price, vh.Deployer(code)))
 		txs = append(txs, bz)
-		h := w.add(&holder{Addr: crypto.CreateAddress(deployer.Addr, nonce+uint64(i)), Kind: "puppet", Name: fmt.Sprintf("puppet%d", i)})
-		w.puppets = append(w.puppets, h)
+		h := w.add(&holder{Addr: crypto.CreateAddress(deployer.Addr, nonce+uint64(i)), Kind: kind, Name: name})
+		contracts = append(contracts, h)
+		if i >= 3 {
+			w.seqs = append(w.seqs, h)
+		} else {
+			w.puppets = append(w.puppets, h)
+		}
 	}
 	br = c.NextBlock(txs, nil)
 	if br.Err != nil {
 		return w, br.Err
 	}
 	for i, res := range br.TxResults() {
-		if res.Code != 0 || len(c.App.EvmKeeper.GetCode(c.QueryCtx(), c.App.EvmKeeper.GetCodeHash(c.QueryCtx(), w.puppets[i].Addr.Bytes()))) == 0 {
-			return w, fmt.Errorf("puppet %d not deployed: %d %s", i, res.Code, res.Log)
+		if res.Code != 0 || len(c.App.EvmKeeper.GetCode(c.QueryCtx(), c.App.EvmKeeper.GetCodeHash(c.QueryCtx(), contracts[i].Addr.Bytes()))) == 0 {
+			return w, fmt.Errorf("contract %d not deployed: %d %s", i, res.Code, res.Log)
 		}
 	}
 	var msgs []sdk.Msg
-	for i, p := range w.puppets {
+	for i, p := range contracts {
 		msgs = append(msgs, banktypes.NewMsgSend(funder.Acc(), p.Addr.Bytes(), coins(vh.Ether(int64(10+20*i)), int64(1_000_000_000*(i+1)+int(r.Intn(1000))))))
 	}
 	br = c.NextBlock([][]byte{c.CosmosTx(funder, msgs, &vh.CosmosOpts{Gas: 600_000})}, nil)
 	if br.Err != nil || br.TxResults()[0].Code != 0 {
 		return w, fmt.Errorf("funding puppets failed: %v %s", br.Err, br.TxResults()[0].Log)
 	}
-	w.actors = append(append([]*holder{}, w.senders...), w.puppets...)
+	w.actors = append(append(append([]*holder{}, w.senders...), w.puppets...), w.seqs...)
 	return w, nil
 }
 
